@@ -439,6 +439,17 @@ theorem abbr_numeric_counterexample :
 
 /-! ## Round 4: zones as transition tables (any table; the harness feeds real IANA transitions) -/
 
+/-- The class of zone abbreviations a layout with `MST` round-trips on (`AbbrOK`, the hypothesis of
+`format_parse_roundtrip` / `format_parse_fields`), by shape: three upper-case letters, four or five
+ending in `T` (`UTC` only with offset 0), and the numeric abbreviations `±hh`, hh ≤ 23, of the tz
+database (`-03`, `+11`).  `abbr_numeric_counterexample` (`+0545`) is just outside. -/
+theorem abbr_class (abbr : Bytes) (off : Int)
+    (h : (abbrShape abbr = true ∧ (abbr = utcB → off = 0))
+      ∨ ∃ s d1 d2, abbr = [s, d1, d2] ∧ (s = 43 ∨ s = 45) ∧ hh2 d1 d2 = true) : AbbrOK abbr off := by
+  rcases h with ⟨h1, h2⟩ | ⟨s, d1, d2, e, hs, hh⟩
+  · exact abbrOK_of_shape abbr off h1 h2
+  · subst e; exact abbrOK_numeric s d1 d2 off hs hh
+
 /-- `Location.lookup` on ANY table returns a segment that contains the instant; on a table with
 ascending transitions every instant of that segment gets the same segment (so offset and
 abbreviation are constant between two transitions). -/
@@ -704,6 +715,37 @@ theorem duration_limits :
     ∧ duration (asc "1.5") = .val errorParsing ∧ duration (asc "0.5h0.5m0.5s") = .val (asc "1830") := by
   decide +kernel
 
+/-- Whatever the text, `{duration}` answers the error marker or a whole number of seconds within
+±9223372036 (an int64 nanosecond count holds no more): no other text can come out. -/
+theorem duration_range (arg : Bytes) :
+    duration arg = .val errorParsing
+    ∨ ∃ n : Int, -9223372036 ≤ n ∧ n ≤ 9223372036 ∧ duration arg = .val (itoa n) := by
+  rcases duration_total arg with ⟨_, h⟩ | ⟨d, hp, hd⟩
+  · exact Or.inl h
+  · obtain ⟨h1, h2⟩ := parseDuration_range arg d hp
+    refine Or.inr ⟨Int.tdiv d 1000000000, ?_, ?_, hd⟩
+    · rcases Int.le_total 0 d with h0 | h0
+      · rw [Int.tdiv_eq_ediv_of_nonneg h0]; omega
+      · have e : d = -(-d) := by omega
+        rw [e, Int.neg_tdiv, Int.tdiv_eq_ediv_of_nonneg (by omega)]; omega
+    · rcases Int.le_total 0 d with h0 | h0
+      · rw [Int.tdiv_eq_ediv_of_nonneg h0]; omega
+      · have e : d = -(-d) := by omega
+        rw [e, Int.neg_tdiv, Int.tdiv_eq_ediv_of_nonneg (by omega)]; omega
+
+/-- Signs: for a text that parses (and has no sign of its own) `+x` answers the same and `-x` the
+negated whole seconds – truncation is toward zero on both sides (`-1.5s` is -1, not -2). -/
+theorem duration_sign (c : UInt8) (r : Bytes) (d : Int) (hc : c ≠ 43 ∧ c ≠ 45)
+    (h : parseDuration (c :: r) = .ok d) :
+    duration (c :: r) = .val (itoa (Int.tdiv d 1000000000))
+    ∧ duration (43 :: c :: r) = .val (itoa (Int.tdiv d 1000000000))
+    ∧ duration (45 :: c :: r) = .val (itoa (-(Int.tdiv d 1000000000))) := by
+  obtain ⟨hm, hp⟩ := parseDuration_sign c r d hc h
+  refine ⟨?_, ?_, ?_⟩
+  · simp only [duration, h]
+  · simp only [duration, hp]
+  · simp only [duration, hm, Int.neg_tdiv]
+
 /-! ## Markers -/
 
 /-- Unparseable input yields the error markers: a time text the layout does not accept gives
@@ -868,6 +910,20 @@ theorem gen_guards_match :
       · simp [h2]
       · cases ok <;> simp [h2]
 
+/-- What the stage closures of `timeformat`, `duration`, `durationformat` and `timeattr` return, as
+source text regenerated from /repo on every run: first the error marker for a bad argument, then exactly
+the expression the model mirrors – `t.Format(format)` (`timeFormatStage`), the INTEGER division
+`int64(duration/time.Second)` (`duration`: `itoa (Int.tdiv d 10^9)`; a float64 route such as
+`duration.Seconds()` or a rounding idiom changes this text), `(time.Duration(secs)*time.Second).String()`
+(`durationFormat`: `durationString (wrap64 (secs * 10^9))`), the attribute function (`timeAttrStage`). -/
+theorem gen_stage_returns :
+    Gen.C18.stageReturns = [
+      ("timeformat", ["returnErrorNum", "returnt.Format(format)"]),
+      ("duration", ["returnErrorParsing", "returnstrconv.FormatInt(int64(duration/time.Second),10)"]),
+      ("durationformat", ["returnErrorNum", "return(time.Duration(secs)*time.Second).String()"]),
+      ("timeattr", ["returnErrorNum", "returnattrFunc(t)"])] := by
+  decide
+
 /-- The argument-count windows of the six helpers as the translator reads them from the guards that
 open `kfTimeParse` … `kfTimeAttr` (`Gen.C18.argRanges`): `<ARGN>` outside, checked first, and inside the
 window with a constant, known second argument and a loadable zone the stage is built. -/
@@ -970,6 +1026,8 @@ example : formatLayout (asc "Mon Jan _2 15:04:05 2006") (timeVOf 1459789945 7200
         | .error _ => false) = true
     ∧ projectDT (carries (tokenize (asc "Jan"))) ⟨2016, 4, 4, 19, 12, 25, 0⟩ = ⟨0, 4, 1, 0, 0, 0, 0⟩ := by
   decide +kernel
+
+example : hh2 48 51 = true ∧ hh2 50 51 = true ∧ hh2 50 52 = false ∧ hh2 49 57 = true := by decide
 
 example : abbrShape (asc "CEST") = true ∧ abbrShape (asc "UTC") = true ∧ abbrShape (asc "MSK") = true
     ∧ carriesInstant (tokenize (asc "2006-01-02T15:04:05Z07:00")) = true := by decide
